@@ -880,9 +880,30 @@ func runHistoryWithFault(h []hist.Op, op string, k int, noRetry ...bool) (calls 
 	cerr := ex.FW.Close()
 	if fired && !was {
 		if cerr != nil {
-			return calls, "Close", "error", nil
+			// the caller closes again (I/O works from here on): a second Close that reports success has written everything
+			writer.VerifFaultHook = nil
+			if len(noRetry) > 0 && noRetry[0] {
+				return calls, "Close", "error", nil
+			}
+			var cerr2 error
+			func() {
+				defer func() {
+					if p := recover(); p != nil {
+						cerr2 = fmt.Errorf("panic: %v", p)
+					}
+				}()
+				cerr2 = ex.FW.Close()
+			}()
+			if cerr2 != nil {
+				if strings.HasPrefix(cerr2.Error(), "panic") {
+					return calls, "Close", "panic: second Close: " + cerr2.Error(), nil
+				}
+				return calls, "Close", "error", nil
+			}
+			firedIn, outcome = "Close", "retried"
+		} else {
+			firedIn, outcome = "Close", "nil"
 		}
-		firedIn, outcome = "Close", "nil"
 	}
 	if !fired {
 		outcome = "clean"
@@ -973,7 +994,9 @@ func runWriteFault(c WriteFaultCase) vt.Verdict {
 		}
 		// (a failed attempt may leave allocated but unreferenced structures behind, e.g. a heap object without an index record:
 		// where the strict decoder refuses the file for that, only the library-level comparison above applies)
-		if ci, _ := cleanIndep.Load(c.History); ci != nil && ci.(string) != mine && strings.HasPrefix(mine, "decode: problems:") {
+		// (the one decode failure a refused attempt is known to leave behind: heap object count and name index size differ by the orphan)
+		orphan := strings.Contains(mine, "header counts") && strings.Contains(mine, "but the name index holds")
+		if ci, _ := cleanIndep.Load(c.History); ci != nil && ci.(string) != mine && !orphan {
 			return vt.Bad("history %d: %s #%d failed during %s, a second attempt returned nil, and the stored bytes decode differently from the fault-free run's: %s (fault-free: %s)", c.History, c.Op, c.K, where, clip(mine), clip(ci.(string)))
 		}
 	case outcome == "error-continued":
